@@ -9,8 +9,11 @@ n = table.count('\n') - 2
 missed = table.count('missed, then caught')
 notdet = sum(1 for line in table.splitlines() if line.startswith('| C') and line.split('|')[4].strip() == 'NOT DETECTED')
 begin, end = '<!-- seeded-table:begin -->', '<!-- seeded-table:end -->'
-block = '%s\n%d seeded changes; %d caught by the quick tier at the first run, %d missed at first and caught after the check was strengthened, %d still not detected.\n\n%s%s' % (
-    begin, n, n - missed - notdet, missed, notdet, table, end)
+rows = [line.split('|') for line in table.splitlines() if line.startswith('| C')]
+first = sum(1 for r in rows if r[5].strip() == 'caught')
+later = sum(1 for r in rows if r[5].strip() != 'caught' and r[4].strip() != 'NOT DETECTED')
+block = '%s\n%d seeded changes; %d caught by the quick tier at the first run, %d missed at first and caught after a check was strengthened (by the property\'s own check, or, where the row says so, by a neighbouring one), %d still not detected.\n\n%s%s' % (
+    begin, n, first, later, notdet, table, end)
 s = s[:s.index(begin)] + block + s[s.index(end) + len(end):]
 open(p, 'w').write(s)
 print('DESIGN.md section 7: %d seeded changes' % n)
